@@ -102,7 +102,7 @@ def cache_side(ctx):
   for w in range(nwork):
     nr = ctx.rng.choice([1, 2, 2, 3])
     mx, pre, s_ops, w_ops = flowsys.gen_workload(ctx.rng, nr)
-    cfg = dict(max=mx, nr=nr, prefill=pre, strategy=ctx.rng.choice(['sorted', 'max', 'naive']), focus=(w % 3 != 2))
+    cfg = dict(max=mx, nr=nr, prefill=pre, strategy=ctx.rng.choice(['sorted', 'max', 'naive']), focus=(w % 3 != 2), zero_dups=(w % 3 == 1))
 
     def run_once(chooser):
       run = flowsys.FlowRun(fm, cfg, s_ops, w_ops)
